@@ -172,10 +172,18 @@ fn scratch_one(dag: &[Node], fam: Fam, want: &[H], out: &mut Out, tier: Tier) ->
     }
     // hiding: every single node (thorough: every pair) replaced by a hidden node carrying its root
     let mut masks: Vec<Vec<bool>> = (0..n).map(|i| (0..n).map(|k| k == i).collect()).collect();
+    // pairs as well: e.g. both children of one case hidden is a code path of its own in the wrapper
+    for i in 0..n {
+        for j in 0..i {
+            masks.push((0..n).map(|k| k == i || k == j).collect());
+        }
+    }
     if tier == Tier::Thorough {
         for i in 0..n {
             for j in 0..i {
-                masks.push((0..n).map(|k| k == i || k == j).collect());
+                for l in 0..j {
+                    masks.push((0..n).map(|k| k == i || k == j || k == l).collect());
+                }
             }
         }
     }
